@@ -26,7 +26,7 @@ OUTCOMES = ["success", "revert", "panic", "failflag", "stuck"]
 GUARDS = ["eq", "unreach", "mulsat", "mulunsat"]
 REPLIES = ["truth", "unknown", "hang", "slow_over", "crash_empty", "crash_partial", "garbage", "error_line",
            "rc_nonzero_valid", "spawn_oserror", "core_missing", "core_garbled", "core_empty", "core_truncated",
-           "fs_enospc", "fs_short_write", "fs_out_eio"]
+           "fs_enospc", "fs_short_write", "fs_out_eio", "fs_debugdir"]
 PANIC_CODES = [0x01, 0x11, 0x12, 0x21]
 VERDICT_OF_EXIT = {0: "PASS", 1: "FAIL", 2: "TIMEOUT", 3: "ERROR", 4: "ERROR", 5: "ERROR"}
 SIG = "check_f(uint256,uint256)"
@@ -246,6 +246,8 @@ class C05Check:
                 info["param"] = zlib.crc32(repr((vec, leaf_idx)).encode())
                 if r == "slow_over":
                     return "slow"
+                if r == "fs_debugdir":
+                    return "unknown"  # ... and the directory halmos keeps failed queries in cannot be created
                 if r.startswith("fs_"):
                     return "truth"  # the fault sits in the file system; the solver answers whatever file it finds
                 if r == "core_truncated":
@@ -260,6 +262,8 @@ class C05Check:
                 return r
 
             def fs_plan(path, kind, observed=observed):
+                if kind == "debugdir":
+                    return "enospc" if any(lf["reply"] == "fs_debugdir" for lf in leaves) else None
                 base = os.path.basename(path)
                 if ".refined" in base:
                     return None
